@@ -95,7 +95,18 @@ func envSharing(c *vh.Ctx) {
 		for i := range idents {
 			idents[i] = envIdent{fmt.Sprintf("g%d-%d", 1000+c.Rng.Intn(9000), i), 1000 + c.Rng.Intn(9000)}
 			idents[i].id = fmt.Sprintf("g%d-%d", idents[i].seed, i)
+			// the reference itself can be disturbed by load (system() returning -1 when os/exec's WaitDelay expires): it is taken
+			// only when two consecutive single executions agree (thorough seed 8 reported a concurrent run that was right
+			// against a reference that was not)
 			ref[i] = runEnv(pr.prog, dir, idents[i])
+			for try := 0; try < 4; try++ {
+				again := runEnv(pr.prog, dir, idents[i])
+				if again == ref[i] {
+					break
+				}
+				ref[i] = again
+				c.Hit("share:env-reference-retaken")
+			}
 			if !strings.Contains(ref[i], idents[i].id) {
 				c.Fail(vh.Failure{Kind: "oracle", What: "a single execution does not show its own identity (shell or files unusable?)", Case: cs, Got: ref[i]})
 			}
